@@ -217,3 +217,5 @@ def run(rep, program: Program, tier: str) -> None:
     rule_r3(rep, program)
     c18.rule_r3(rep, program, prop=PROP, rule="R4")
     rule_r5(rep, program)
+    # a derivative that updates a cached array in place is wrong from its second evaluation on (shared with C09-R9)
+    c09.rule_r9(rep, program, prop=PROP, rule="R6")
